@@ -62,6 +62,30 @@ class Violation:
         self.what, self.replay, self.shrunk_from = what, replay, shrunk_from
 
 
+class CaseTimeout(BaseException):
+    pass
+
+
+class time_limit:
+    """per-case wall-clock limit for the implementation runner (the real code may loop on adversarial input)"""
+    def __init__(self, seconds):
+        self.seconds = seconds
+
+    def _raise(self, *a):
+        raise CaseTimeout()
+
+    def __enter__(self):
+        import signal
+        self.old = signal.signal(signal.SIGALRM, self._raise)
+        signal.alarm(self.seconds)
+
+    def __exit__(self, *a):
+        import signal
+        signal.alarm(0)
+        signal.signal(signal.SIGALRM, self.old)
+        return False
+
+
 # ----------------------------------------------------------------------------- lean side
 
 def _lock():
@@ -263,7 +287,10 @@ def evaluate_cases(P, ctx, cases):
         spec = f[1] if len(f) > 1 else '-'
         aux = f[2:]
         try:
-            impl = P.impl(c, aux)
+            with time_limit(getattr(P, 'CASE_TIMEOUT', 20)):
+                impl = P.impl(c, aux)
+        except CaseTimeout:
+            impl = 'err:timeout'
         except Exception as e:  # harness bug, not an implementation exception (those are canonicalised by P.impl)
             raise RuntimeError('impl runner crashed on %s: %r' % (c.key(), e)) from e
         o = Outcome(c, impl, model, spec, aux)
@@ -281,7 +308,7 @@ def run_check(pid, tier, seed, replay=None):
     problems = []          # things that broke the proof or the tie (not violations by themselves)
     # 1 translator
     from extract import regenerate
-    gen_status = regenerate(ctx, getattr(P, 'GENERATED', []))
+    gen_status = regenerate(ctx, getattr(P, 'GENERATED', []))  # list of callables -> (lean path, source, mode)
     for name, st in gen_status.items():
         if st['mode'] == 'failed':
             problems.append('translator: could not regenerate %s (%s); last committed table kept' % (name, st.get('error')))
